@@ -56,6 +56,9 @@ def build(chk):
     S03.c_template_efficiency(chk)
     S03.c_template_integrate(chk)
     S03.c_template(chk)
+    # 'same minimal velocity': the general solver's minVelocity / strongestShock (shared with C06)
+    from .C06_admissible import c_min_velocity
+    c_min_velocity(chk)
 
 
 def c_findTm(chk):
